@@ -193,6 +193,127 @@ func expiredCaseFacts(fd *ast.FuncDecl) (found, atomic, underMu bool) {
 	return true, atomic, underMu
 }
 
+// evictFacts looks at processPending's make-room block (the statements following `runnerToExpire.refMu.Lock()`
+// in the same block):
+//
+//	atomic – `runnerToExpire.sessionDuration = 0`, the `runnerToExpire.refCount <= 0` test and the send on
+//	         s.expiredCh all sit between that Lock and the next top-level `runnerToExpire.refMu.Unlock()` (marking
+//	         the victim and deciding whether it is idle are one critical section: a victim whose last user finishes
+//	         in between is expired by whoever sees refCount reach 0 with sessionDuration 0)
+func evictFacts(fd *ast.FuncDecl) (found, atomic bool) {
+	ast.Inspect(fd.Body, func(n ast.Node) bool {
+		bs, ok := n.(*ast.BlockStmt)
+		if !ok || found {
+			return !found
+		}
+		lock := -1
+		for i, st := range bs.List {
+			if es, ok := st.(*ast.ExprStmt); ok && src(es.X) == "runnerToExpire.refMu.Lock()" {
+				lock = i
+				break
+			}
+		}
+		if lock < 0 {
+			return true
+		}
+		found = true
+		unlock := -1
+		for i := lock + 1; i < len(bs.List); i++ {
+			if es, ok := bs.List[i].(*ast.ExprStmt); ok && src(es.X) == "runnerToExpire.refMu.Unlock()" {
+				unlock = i
+				break
+			}
+		}
+		if unlock < 0 {
+			return false
+		}
+		mark, test, send := false, false, false
+		for _, st := range bs.List[lock+1 : unlock] {
+			t := src(st)
+			if as, ok := st.(*ast.AssignStmt); ok && len(as.Lhs) == 1 && src(as.Lhs[0]) == "runnerToExpire.sessionDuration" && src(as.Rhs[0]) == "0" {
+				mark = true
+			}
+			if is, ok := st.(*ast.IfStmt); ok && strings.Contains(src(is.Cond), "runnerToExpire.refCount") {
+				test = true
+				if strings.Contains(t, "s.expiredCh <- runnerToExpire") {
+					send = true
+				}
+			}
+		}
+		// and no other send of the victim on expiredCh / no other refCount test of it outside the section
+		outside := 0
+		for i, st := range bs.List {
+			if i > lock && i < unlock {
+				continue
+			}
+			t := src(st)
+			if strings.Contains(t, "s.expiredCh <- runnerToExpire") || strings.Contains(t, "runnerToExpire.refCount") && !strings.Contains(t, "slog.") {
+				outside++
+			}
+		}
+		atomic = mark && test && send && outside == 0
+		return false
+	})
+	return
+}
+
+// enqueueFacts: GetRunner hands the request to the pending loop with a NON-BLOCKING send
+// (`select { case s.pendingReqCh <- req: default: req.errCh <- ErrMaxQueue }`) and nowhere else
+func enqueueFacts(f *ast.File) (nonBlocking bool) {
+	fd := funcDecl(f, "GetRunner")
+	if fd == nil {
+		return false
+	}
+	sends, inSelectWithDefault := 0, 0
+	ast.Inspect(fd.Body, func(n ast.Node) bool {
+		switch x := n.(type) {
+		case *ast.SelectStmt:
+			hasDefault, hasSend := false, false
+			for _, c := range x.Body.List {
+				cc := c.(*ast.CommClause)
+				if cc.Comm == nil {
+					hasDefault = strings.Contains(src(cc), "ErrMaxQueue")
+				} else if ss, ok := cc.Comm.(*ast.SendStmt); ok && src(ss.Chan) == "s.pendingReqCh" {
+					hasSend = true
+				}
+			}
+			if hasDefault && hasSend {
+				inSelectWithDefault++
+			}
+		case *ast.SendStmt:
+			if src(x.Chan) == "s.pendingReqCh" {
+				sends++
+			}
+		}
+		return true
+	})
+	return sends == 1 && inSelectWithDefault == 1
+}
+
+// waitUnloadFacts: the `case <-s.unloadedCh:` arms of processPending only log and continue (they do not touch
+// s.loaded or a runner: the entry of a runner that is still busy must stay)
+func waitUnloadFacts(fd *ast.FuncDecl) (pure bool) {
+	pure = true
+	n := 0
+	ast.Inspect(fd.Body, func(m ast.Node) bool {
+		if cc, ok := m.(*ast.CommClause); ok && cc.Comm != nil && strings.Contains(src(cc.Comm), "s.unloadedCh") {
+			n++
+			for _, st := range cc.Body {
+				t := src(st)
+				if bs, ok := st.(*ast.BranchStmt); ok && bs.Tok == token.CONTINUE {
+					continue
+				}
+				if strings.HasPrefix(t, "slog.") {
+					continue
+				}
+				pure = false
+			}
+		}
+		return true
+	})
+	return pure && n >= 1
+}
+
 func main() {
 	f, err := parser.ParseFile(fset, os.Getenv("SCHED_GO"), nil, 0)
 	if err != nil {
@@ -219,4 +340,8 @@ func main() {
 	fmt.Printf("deletesElsewhere=%d\n", others)
 	found, atomic, underMu := expiredCaseFacts(pc)
 	fmt.Printf("expiredCaseFound=%v\nexpiredAtomic=%v\nunloadUnderLoadedMu=%v\n", found, atomic, underMu)
+	ef, ea := evictFacts(pp)
+	fmt.Printf("evictBlockFound=%v\nevictAtomic=%v\n", ef, ea)
+	fmt.Printf("enqueueNonBlocking=%v\n", enqueueFacts(f))
+	fmt.Printf("waitUnloadPure=%v\n", waitUnloadFacts(pp))
 }
